@@ -78,11 +78,11 @@ NodeCmd == \E h \in Handles({"synth", "group"}) :
     \/ \E m \in (IF Wide THEN {"free_all", "deep_free", "trace"} ELSE {"free_all"}) : Do(E(m, h, "none", 0, "", <<>>, <<>>, "none", <<>>))
 FreeNode == \E h \in Handles({"synth", "group"}) : Do(E("free", h, "none", 0, "", <<>>, <<>>, "none", <<>>))
 Lowest(Q) == {CHOOSE x \in Q : \A y \in Q : x <= y}      \* which address is irrelevant here (C16 decides that)
-NewBuffer == \E cm \in {"none", "list", "func"}, a \in Lowest(A!Legal(st.buf, BufPart(Cfg0), 1)) :
+NewBuffer == \E cm \in {"none", "list", "func", "state"}, a \in Lowest(A!Legal(st.buf, BufPart(Cfg0), 1)) :
                a # A!NONE /\ Do(E("buffer", 0, "none", 0, "", <<>>, <<8, 1>>, cm, <<a>>))
 Consecutive == \E a \in Lowest(A!Legal(st.buf, BufPart(Cfg0), 2)) :
                a # A!NONE /\ Do(E("consecutive", 0, "none", 0, "", <<>>, <<2, 8, 1>>, "none", <<a, a + 1>>))
-FreeBuffer == \E h \in Handles({"buf"}), cm \in {"none", "func"} : Do(E("b_free", h, "none", 0, "", <<>>, <<>>, cm, <<>>))
+FreeBuffer == \E h \in Handles({"buf"}), cm \in {"none", "func", "state"} : Do(E("b_free", h, "none", 0, "", <<>>, <<>>, cm, <<>>))
 FreeAllBuffers == Do(E("b_free_all", 0, "none", 0, "", <<>>, <<>>, "none", <<>>))
 BufferCmd == \E h \in Handles({"buf"}) :
     \/ \E cm \in {"none", "func"}, o \in {"b_zero", "b_close"} : Do(E(o, h, "none", 0, "", <<>>, <<>>, cm, <<>>))
